@@ -1971,7 +1971,8 @@ impl<'a, 'b, W: Write> SerializeTupleStruct for TupleSer<'a, 'b, W> {
                         if self.ser.in_flow == 0 {
                             // Stage the comment so scalar/alias serializers append it inline via write_end_of_scalar.
                             if !comment.is_empty() {
-                                let sanitized = comment.replace('\n', " ");
+                                // A comment must stay on its line: neutralise every line break.
+                                let sanitized = comment.replace(['\n', '\r'], " ");
                                 self.ser.pending_inline_comment = Some(sanitized);
                             }
                             // Serialize the inner value as-is. Complex values will ignore the comment (it will be cleared).
